@@ -526,7 +526,7 @@ TABLE = {
     "R13": r13_for_ref,
     "R14": r14_const_fn,
 }
-ORDER = ["R2", "R1", "R14", "R3", "R4", "R5", "R6", "R13", "R11", "R7", "R8", "R12", "R10"]
+ORDER = ["R2", "R1", "R14", "R4", "R3", "R5", "R6", "R13", "R11", "R7", "R8", "R12", "R10"]
 
 EXEC_TOUCHING = {"R3", "R4", "R6", "R7", "R8", "R10", "R11", "R12", "R13", "R14"}
 
